@@ -7,7 +7,10 @@ Driver stream `C11`: `slice.EditScript` / `slice.LCS` on two integer sequences.
 
 Op lines: `reset [L R]` (comma-separated lists, `-` = empty), `l v…` / `r v…` (append to
 lhs / rhs), `edit` (run `EditScript(lhs, rhs)` and `LCS(lhs, rhs)`), `editview i a j b` (the same on
-`lhs[i:a]` and `lhs[j:b]`, which in Go are two views of one backing array).
+`lhs[i:a]` and `lhs[j:b]`, which in Go are two views of one backing array), `editt ty` (the same calls at
+another element type: `pad`, `str` — the integers converted to a struct with padding / to strings and back —
+and the zero-size types `zs` (`struct{}`), `za` (`[0]int`), where only the two lengths survive the conversion:
+the model and the specification then see two lists of zeros).
 
 The `edit` line runs `Model.Edit.editScriptFunc?` / `lcsFunc?` — the functions the C11 theorems
 are about — and prints the script edit by edit as `<op><X>/<Y>@<xoff>,<yoff>` (`xoff`/`yoff`:
@@ -107,6 +110,13 @@ def rotR (l : List Int) (k : Nat) : List Int :=
     let m := l.length - k % l.length
     l.drop m ++ l.take m
 
+/-- what a list of integers is after the conversion to the element type `ty` of `editt` / `lcst` and back: a
+zero-size type keeps the length only (all elements are equal); the other conversions are injective -/
+def atType (ty : String) (l : List Int) : List Int :=
+  if ty == "zs" || ty == "za" then l.map (fun _ => 0) else l
+
+def knownType (ty : String) : Bool := ty == "zs" || ty == "za" || ty == "pad" || ty == "str"
+
 def step (s : S) (toks : List String) (impl : String) : S × String × String :=
   match toks with
   | ["reset"] => ({}, "ok", "-")
@@ -126,6 +136,15 @@ def step (s : S) (toks : List String) (impl : String) : S × String × String :=
   | ["edit"] =>
     let v := specEdit s impl
     match lcsFunc? eqInt s.lhs s.rhs, editScriptFunc? eqInt s.lhs s.rhs with
+    | some lcs, some es => (s, s!"lcs={fmtInts lcs} n={es.length} script={fmtScript es}", v)
+    | _, _ => (s, "panic:index", v)
+  | ["editt", ty] =>
+    -- the element type changes, the functions do not: same model and specification functions as `edit`
+    if !knownType ty then (s, "bad-op", "bad bad-op") else
+    let l := atType ty s.lhs
+    let r := atType ty s.rhs
+    let v := specEdit { lhs := l, rhs := r } impl
+    match lcsFunc? eqInt l r, editScriptFunc? eqInt l r with
     | some lcs, some es => (s, s!"lcs={fmtInts lcs} n={es.length} script={fmtScript es}", v)
     | _, _ => (s, "panic:index", v)
   | ["editview", i, a, j, b] =>
